@@ -162,10 +162,10 @@ def oracle_c07(tr, fail, stats):
             if not all(modclose(a, b, l, tol) for a, b, l in zip(pos, exp, L)):
                 fail("C07:position-jump", {**ctx_id(i), "unit": ident, "pre": [ppos, pvel, pts], "post": [pos, vel, ts], "t": t},
                      f"position is not the previous position advanced by velocity*elapsed (expected {exp}, got {pos})")
-            if not all(0.0 <= x <= l for x, l in zip(pos, L)):
-                fail("C07:position-outside-box", {**ctx_id(i), "unit": ident, "pos": pos}, "position outside [0, L]")
-            if any(x == l for x, l in zip(pos, L)):
-                stats["pos_equals_L"] = stats.get("pos_equals_L", 0) + 1
+            # half-open box: `correct_position_entry` maps the float modulo's `L` to 0.0 (repaired in /repo), and every velocity
+            # component of the shipped/generated chains is >= 0, so no cell-boundary event parks a unit at `cell_max == L`
+            if not all(0.0 <= x < l for x, l in zip(pos, L)):
+                fail("C07:position-outside-box", {**ctx_id(i), "unit": ident, "pos": pos}, "position outside [0, L)")
         # exactly one moving chain (from the start-of-run event on)
         moving = {k: v for k, v in post.items() if is_leaf(k, meta) and v[1] is not None}
         if not moving:
